@@ -1,5 +1,5 @@
 """Data for MANIFEST.json (bin/mkmanifest)."""
-HOOK_COMMITS = ["ed34141", "9ae5561", "4ea2e60", "1c8a90d", "5804a2b", "ed6bb5f", "a8f0024", "2ae9299"]
+HOOK_COMMITS = ["ed34141", "9ae5561", "4ea2e60", "1c8a90d", "5804a2b", "ed6bb5f", "a8f0024", "2ae9299", "170fb96"]
 NOTES = ("Machine-checked proof in Coq 8.16 over executable Gallina models of the back-end logic; each model is tied to /repo on every run "
          "by a correspondence run (extracted OCaml model vs the Go code on generated inputs) and/or by facts regenerated from the source "
          "(translator -> coq/gen). Oracles (math/big, encoding/*, x/net/html, node, strace) only search for failing inputs. "
